@@ -48,7 +48,8 @@ def _ctor(fn, datum):
 
 
 def _is_exotic_sub(datum, base) -> bool:
-    return isinstance(datum, base) and type(datum) is not base
+    bases = base if isinstance(base, tuple) else (base,)
+    return isinstance(datum, bases) and type(datum) not in bases
 
 
 def ref_load(spec, datum, strict: bool, env):  # noqa: C901, PLR0911, PLR0912, PLR0915
